@@ -661,6 +661,9 @@ impl BuildJob<'_> {
                     sf.read_stamp(ptx.state().env())
                         .expect("target file stat failed"),
                 );
+                // (changed in this run: possibly by an earlier attempt that
+                // failed.  This one did not.)
+                sf.failed_runid = None;
             } else {
                 sf.set_checksum(String::new());
                 if let Err(e) = sf.update_stamp(ptx.state().env(), false) {
